@@ -85,6 +85,14 @@ def namespace():
     ns = {k: v for k, v in vars(specref).items() if not k.startswith("_")}
     from replay import scopes
     ns.update(getattr(scopes, "SPEC_EXTRA", {}))
+
+    def post(q, *args, **kw):
+        c = contracts()[q]
+        n2 = namespace()
+        n2.update(dict(zip(c.params, args)))
+        n2.update(kw)
+        return ev(c.returns[1], n2)
+    ns["post"] = post
     return ns
 
 
@@ -131,6 +139,8 @@ def build(rec):
             return pd.Series(items, index=rec.get("index"), dtype=object if items and isinstance(items[0], str) else None)
         if k == "set":
             return set(items)
+    if t == "table":
+        return pd.DataFrame({k: [None if (v == "" and rec.get("none_for_empty")) else v for v in vs] for k, vs in rec["columns"].items()})
     if t == "py":
         from replay import scopes
         return eval(rec["expr"], scopes.BUILD_NS)
@@ -229,9 +239,15 @@ def _same(a, b):
     import numpy as np
     if isinstance(a, (float, np.floating)) or isinstance(b, (float, Fraction, np.floating)):
         return specref.close(a, b)
+    import pandas as pd
     try:
+        if isinstance(a, pd.DataFrame) or isinstance(b, pd.DataFrame):
+            return isinstance(a, pd.DataFrame) and isinstance(b, pd.DataFrame) and a.shape == b.shape and \
+                list(a.columns) == list(b.columns) and bool((a.values == b.values).all())
+        if isinstance(a, np.ndarray) or isinstance(b, np.ndarray):
+            return type(a) is type(b) and a.shape == b.shape and bool((a == b).all())
         r = a == b
-        if isinstance(r, np.ndarray):
+        if isinstance(r, (np.ndarray, pd.Series)):
             return bool(r.all())
         return bool(r)
     except Exception:
